@@ -548,7 +548,12 @@ func (c *Ctx) squareCase(sc sqCase) {
 			}
 			prevEnd = p.idx + nsh
 			r, err := square.BlobShareRange(b1.kept, nKeptNormal+p.txPos, p.blobPos, sc.max, sc.thr)
-			c.emit(fmt.Sprintf("sq blobrange %d %d %d %d %s", sc.max, sc.thr, nKeptNormal+p.txPos, p.blobPos, kl), rangeOutBare(r, err))
+			// every query carries the whole kept list and makes the model lay out the square again: in the
+			// thorough tier (where the largest cases are not Go-only) squares with many blobs send a sample of
+			// their queries to the model; the Go-side oracles below see all of them
+			if !c.thorough || len(order) <= 48 || oi < 6 || oi >= len(order)-6 || c.rng.Chance(24, len(order)) {
+				c.emit(fmt.Sprintf("sq blobrange %d %d %d %d %s", sc.max, sc.thr, nKeptNormal+p.txPos, p.blobPos, kl), rangeOutBare(r, err))
+			}
 			if err != nil || r.Start != p.idx || r.End != p.idx+nsh {
 				fail("C04", fmt.Sprintf("BlobShareRange(tx %d, blob %d) = %v, the blob's shares are [%d,%d)", nKeptNormal+p.txPos, p.blobPos, rangeOutBare(r, err), p.idx, p.idx+nsh))
 				fail("C12", fmt.Sprintf("BlobShareRange(tx %d, blob %d) = %v, the blob's shares are [%d,%d)", nKeptNormal+p.txPos, p.blobPos, rangeOutBare(r, err), p.idx, p.idx+nsh))
